@@ -29,18 +29,18 @@ def _h(name, claim, bound=None, tier=None):
 _MAP = 'mapping succeeds exactly when the reference stream parse (asm.yml table) succeeds, same kind of error, same op offsets'
 _OPS = 'op(i) equals the i-th op of the reference parse for i < len and is None at len'
 KANI_VM_MAPPED = {'crate': 'kani/vm_k2', 'generate': asm_yaml.gen_kani_table, 'kind': 'bounded', 'parallel': 3, 'timeout_s': 2400, 'mem_gb': 20, 'harnesses': [
-    _h('proofs::map_len_2', _MAP, 'all byte strings of length 2'),
+    _h('proofs::map_len_2', _MAP, 'all byte strings of length 2', 'thorough'),
     _h('proofs::ops_len_2', _OPS, 'all byte strings of length 2, every index 0..=len', 'thorough'),
-    _h('proofs::map_len_1', _MAP, 'all byte strings of length 1', 'thorough'),
+    _h('proofs::map_len_1', _MAP, 'all byte strings of length 1'),
     _h('proofs::map_len_3', _MAP, 'all byte strings of length 3', 'thorough'),
     _h('proofs::map_push_11', _MAP, 'Push opcode + 8 arbitrary immediate bytes + 2 arbitrary bytes', 'thorough'),
     _h('proofs::map_push_truncated', _MAP, 'one arbitrary byte, a Push opcode and 0..8 immediate bytes (every truncation)', 'thorough'),
     _h('proofs::ops_push_10', _OPS, '10-byte strings with a Push opcode at position 0 or 1', 'thorough')]}
 _JOIN = 'compute_effects: memory == old ++ children in index order, pc == max, halt == or, gas == checked sum (Err exactly on overflow)'
 KANI_VM_JOIN = {'crate': 'kani/vm_k2', 'generate': asm_yaml.gen_kani_table, 'kind': 'bounded', 'parallel': 3, 'timeout_s': 3600, 'mem_gb': 20, 'harnesses': [
-    _h('join::join_1_2_1', _JOIN, 'parent memory 1 word, two children with 2 and 1 words; contents, gas, pcs, halt flags symbolic'),
+    _h('join::join_1_2_1', _JOIN, 'parent memory 1 word, two children with 2 and 1 words; contents, gas, pcs, halt flags symbolic', 'thorough'),
     _h('join::join_0_1_0_2', _JOIN, 'empty parent memory, three children with 1, 0 and 2 words', 'thorough'),
-    _h('join::join_2_0_0', _JOIN, 'parent 2 words, two children with empty memories', 'thorough')]}
+    _h('join::join_2_0_0', _JOIN, 'parent 2 words, two children with empty memories')]}
 _SEL = 'Select: [.., a, b, cond] -> b if cond == 1, a if cond == 0 (operands popped, words below unchanged), InvalidCondition otherwise; error below 3 words'
 _STR = 'StoreRange: [.., v.., k, addr] stores the k words at memory[addr..addr+k], all other memory words and the length unchanged, operands popped; error and memory untouched when out of range / negative'
 _PAN = 'PanicIf: cond 0 continues (operand popped), cond 1 fails with Panic carrying the remaining stack, anything else InvalidPanicIfCondition'
